@@ -257,9 +257,12 @@ pub fn cases(tier: &str, seed: u64, focus: &str) -> Vec<EncCase> {
 
     // (3b) Base256 runs around the one-/two-byte length field boundary (249/250) and the maximum (1555)
     if focus != "C10" {
-        let lens: Vec<usize> = if thorough { vec![247, 248, 249, 250, 251, 252, 253, 1553, 1554, 1555, 1556] } else { vec![248, 249, 250, 251] };
+        let lens: Vec<usize> = if thorough { vec![247, 248, 249, 250, 251, 252, 253, 1553, 1554, 1555, 1556, 1557] } else { vec![248, 249, 250, 251, 1555, 1556] };
         for l in lens {
-            for tail in [&b""[..], b"1234567890123456789012345678901234567890", b"ABCDEFGHIJKLMNOP", b"a"] {
+            for tail in [&b""[..], b"1234567890123456789012345678901234567890", b"ABCDEFGHIJKLMNOP", b"a", b"12", b"\xFF"] {
+                if l > 1000 && tail.len() > 2 {
+                    continue;
+                }
                 let mut s = class_string(&mut rng, Class::High, l);
                 s.extend_from_slice(tail);
                 push_cfgs(&mut out, &mut rng, &g, "b256len", &s, 2, focus);
